@@ -237,6 +237,32 @@ def shared_rules(fb, ctx, pid, only=None):
     ctx.check(any((is_local(strip(u["recv"])) and hirq.is_lid(strip(u["args"][0]), cur)) or (hirq.is_lid(strip(u["recv"]), cur) and is_local(strip(u["args"][0]))) for u in un), "PROVENANCE", "join unions the origins of the matched facts", "PROVENANCE|union", "CombineIt::next must return origin.union(current_origin) for multi-predicate bodies", f"{nb['file']}:{nb['line']}")
     single = [n for n in find_all(nh["body"], lambda n: n.get("k") == "ret") if find_all(n, lambda z: z.get("k") == "mcall" and z.get("name") == "clone" and hirq.is_lid(strip(z["recv"]), cur))]
     ctx.check(bool(single), "PROVENANCE", "single predicate returns the fact's own origin", "PROVENANCE|single", "the one-predicate case must return current_origin.clone()", f"{nb['file']}:{nb['line']}")
+    # Origin::union really is the union: every value it returns depends on BOTH operands (a fast path returning one side is only
+    # right when that side is the superset - confusing the two sides silently drops block ids from a derived fact's provenance)
+    ub = fb.body("biscuit_auth::datalog::origin::Origin::union")
+    rets = mirq.value_return_blocks(ub)
+    bad = []
+    for (i, kind, item) in rets:
+        ops = item["a"] if kind == "call" else ([item["r"].get("op")] if item["r"].get("k") in ("use", "cast") else item["r"].get("ops", []))
+        lv = set()
+        for o in ops:
+            if isinstance(o, dict):
+                lv |= mirq.leaves_at(fb, ub, o, i)
+        has1, has2 = any(x.startswith("arg1") for x in lv), any(x.startswith("arg2") for x in lv)
+        if has1 and has2:
+            continue
+        # a one-sided return is right exactly under `<that side>.is_superset(<the other side>)`
+        side, other_ = ("arg1", "arg2") if has1 else ("arg2", "arg1")
+        justified = False
+        for c in mirq.calls_matching(fb, ub, r"::is_superset$"):
+            l0 = mirq.operand_leaves(fb, ub, c.args[0]); l1 = mirq.operand_leaves(fb, ub, c.args[1])
+            if any(x.startswith(side) for x in l0) and not any(x.startswith(other_) for x in l0) and any(x.startswith(other_) for x in l1) and not any(x.startswith(side) for x in l1) and c.dest is not None:
+                for br in mirq._follow_bool(fb, ub, c.dest["l"], positive=True):
+                    if br[2] is not None and mirq.dominates(ub, br[2], i) and mirq._edge_only(ub, br[1], br[2]):
+                        justified = True
+        if not justified:
+            bad.append((i, sorted(x for x in lv if x.startswith("arg"))))
+    ctx.check(bool(rets) and not bad, "PROVENANCE", "Origin::union: every returned origin depends on both operands", "PROVENANCE|Origin::union", f"a return of Origin::union depends only on {bad[0][1] if bad else '?'}: block ids of the other operand are dropped from the derived fact's origin", f"{ub['file']}:{ub['line']}")
     # run_with_limits passes the stored rule origin
     ap = mcalls(rh["body"], r"datalog::Rule::apply$")
     pair_ok = False
